@@ -502,6 +502,12 @@ class SessionDescription:
                         current_media.direction = attr
                     elif attr == "rtpmap":
                         format_id, format_desc = value.split(" ", 1)
+                        if any(
+                            x.payloadType == int(format_id)
+                            for x in current_media.rtp.codecs
+                        ):
+                            # the payload type is already mapped, the first mapping wins
+                            continue
                         bits = format_desc.split("/")
                         if current_media.kind == "audio":
                             if len(bits) > 2:
